@@ -378,7 +378,7 @@ func reporters(ps []problem) map[string]int {
 }
 
 // checkCase runs baseline + variant and applies the oracle. base may be passed in (cached).
-func checkCase(c Case, srv *promsrv.Server, base *runResult) (nontrivial bool, err error) {
+func checkCase(c Case, srv *sharedServer, base *runResult) (nontrivial bool, err error) {
 	if base == nil {
 		b := run(c, variant{}, srv.URL, false)
 		base = &b
@@ -413,10 +413,19 @@ func checkCase(c Case, srv *promsrv.Server, base *runResult) (nontrivial bool, e
 	return nontrivial, compare(base.Problems, got.Problems, c.Name, c.Mechanism)
 }
 
-func newServer(c Case) *promsrv.Server {
-	fx := c.Fixtures
-	return promsrv.New(c.DB.At(time.Now()), fx)
+// newServer points the per-process fake server at the case's database and fixtures (cases run one at a time).
+func newServer(c Case) *sharedServer {
+	srv := promsrv.Shared()
+	srv.SetDB(c.DB.At(time.Now()))
+	srv.SetFixtures(c.Fixtures)
+	srv.ResetLog()
+	return &sharedServer{Server: srv}
 }
+
+type sharedServer struct{ *promsrv.Server }
+
+// Close is a no-op: the shared server lives as long as the process.
+func (s *sharedServer) Close() {}
 
 // ---------------------------------------------------------------------------
 // Generators
@@ -857,7 +866,7 @@ func binFlags(c Case) []string {
 	return nil
 }
 
-func checkBinaryCase(bin string, c Case, srv *promsrv.Server, base []problem) (bool, error) {
+func checkBinaryCase(bin string, c Case, srv *sharedServer, base []problem) (bool, error) {
 	var err error
 	if base == nil {
 		if base, err = runBinary(bin, c, srv.URL, nil); err != nil {
